@@ -35,7 +35,16 @@ from harness.common import Ctx, Part, lean_batch, load_corpus, pmap
 THEOREMS = [
     "IrVerif.Writer.C09_budget",
     "IrVerif.Writer.C09_callback_mutex",
+    "IrVerif.Writer.C09_callback_once",
     "IrVerif.Writer.C09_tensor_mutex",
+    "IrVerif.Writer.C09_deadlock_free",
+    "IrVerif.Writer.C09_terminates",
+    "IrVerif.Writer.C09_schedule_bounded",
+    "IrVerif.Writer.C09_maximal_terminal",
+    "IrVerif.Writer.C09_bytes_serial",
+    "IrVerif.Writer.C09_error_quiescent",
+    "IrVerif.Writer.wfb_sound",
+    "IrVerif.Writer.layoutb_sound",
 ]
 ASSUMPTIONS = [
     "threading.Lock/Condition and ThreadPoolExecutor/as_completed are modelled by their documented semantics "
@@ -48,7 +57,8 @@ ASSUMPTIONS = [
     "OS-scheduled differential runs + oracle only",
 ]
 
-STEP_TIMEOUT = 20.0
+STEP_TIMEOUT = 120.0
+OS_TIMEOUT = 120.0
 
 
 class _Abort(BaseException):
@@ -376,19 +386,20 @@ def install_shim(ed, sched: Sched):
     saved = (ed.threading, ed.concurrent)
 
     def Lock():
+        import linecache
+        import re
+
         name = _creator_name(2)
-        fid = id(sys._getframe(1))
+        fr = sys._getframe(1)
         if name == "_create_tensor_write_locks":
             role = "tensor"
-        elif name in ("_write_parallel", "_write_external_tensors"):
-            n_prev = sum(1 for l in sched.locks if l.creator == name and l.frame_id == fid)
-            role = "cb" if n_prev == 0 else "files"
         else:
-            role = "unknown:" + name
-        lk = SLock.__new__(SLock)
-        lk.creator, lk.frame_id = name, fid
-        SLock.__init__(lk, sched, role)
-        return lk
+            # role from the variable the lock is assigned to (`callback_lock = threading.Lock()`)
+            line = linecache.getline(fr.f_code.co_filename, fr.f_lineno)
+            m = re.search(r"(\w+)\s*=\s*threading\.Lock\(\)", line)
+            var = m.group(1) if m else "?"
+            role = "cb" if "callback" in var else ("files" if "files" in var else f"unknown:{name}:{var}")
+        return SLock(sched, role)
 
     def Condition(lock=None):
         holder = sys._getframe(1).f_locals.get("self")
@@ -740,6 +751,11 @@ class Director:
             for w in s.workers:
                 if w.task == i and not w.exited and _op_enabled(w):
                     enabled.append([3, i])
+        self.raw_runnable = bool(
+            any(not w.exited and _op_enabled(w) for w in s.workers)
+            or (takers and ex and (ex.queue or ex.shutdown_flag))
+            or any(l[0] == 0 for l in enabled)
+        )
         return dict(
             main=main,
             queue=[f.job for f, *_ in ex.queue] if ex else [],
@@ -793,7 +809,7 @@ class Director:
                     break
                 lab = chooser(len(labels), obs)
                 if lab is None:
-                    status = "deadlock" if not obs["enabled"] else "stopped"
+                    status = "deadlock" if not self.raw_runnable else "stopped"
                     break
                 if lab not in obs["enabled"]:
                     status = "not-enabled"
@@ -909,7 +925,7 @@ def run_os(case, seed):
     try:
         th = _rt.Thread(target=body, daemon=True)
         th.start()
-        th.join(STEP_TIMEOUT)
+        th.join(OS_TIMEOUT)
         if th.is_alive():
             res["status"] = "hang"
         else:
@@ -1096,6 +1112,10 @@ def _work(item):
                     part.case(["os", case, rep], nontrivial=True, os_mode=case["mode"], os_nested=nested,
                               os_outcome=r["outcome"], os_workers=min(case["workers"], 9))
                     oracle(case, r, serial, "os", part)
+                    if r["status"] == "hang":
+                        break
+                if len(part["failures"]) >= 3:
+                    break
     except Exception as e:  # noqa: BLE001
         import traceback
 
@@ -1162,6 +1182,11 @@ def run(ctx: Ctx) -> None:
 
 
 def replay(ctx: Ctx, obj: dict) -> None:
+    if obj.get("kind") == "unchecked-obligation":
+        for d in obj.get("correspondence_disagreements", []):
+            if isinstance(d.get("case"), dict) and "case" in d["case"]:
+                replay(ctx, {"case": d["case"]})
+        return
     case = obj.get("case", obj)
     if "case" in case:
         case = case["case"]
@@ -1177,8 +1202,14 @@ def replay(ctx: Ctx, obj: dict) -> None:
     else:
         cfg = model_cfg(case)
         it = iter([list(l) for l in labels])
-        res = Director(case, cfg).run(lambda k, obs: next(it, None))
-        if res["status"] == "stopped":
-            res["status"] = "ok"
+
+        def chooser(k, obs):
+            # follow the recorded schedule as far as this tree allows, then run to completion
+            lab = next(it, None)
+            if lab is None or lab not in obs["enabled"]:
+                lab = obs["enabled"][0] if obs["enabled"] else None
+            return lab
+
+        res = Director(case, cfg).run(chooser)
         _compare(part, "replay", case, cfg, [res], serial)
     ctx.merge(part)
